@@ -159,6 +159,8 @@ def describe(c):
     w = c["world"]
     if c.get("dbclose"):
         parts.append("dbclose=" + c["dbclose"])
+    if c.get("dbfault"):
+        parts.append("dbfault=" + fault_name(c["dbfault"]))
     if c["f_tpStop"] == "cancel" and (c.get("how") or {}).get("tpStop") == "on-entry":
         parts.append("ctrl-c-before-the-tester-present-task-is-awaited")
     if w["lock"] != "free":
@@ -172,10 +174,43 @@ def describe(c):
     return ":".join(parts)
 
 
+def fault_name(f):
+    return f"{f['call']}.{f['idx']}.{f['mode']}"
+
+
+DB_CALLS = {"connect": 5, "insert": 2, "complete": 2, "disconnect": 1}   # awaited statements per call (Model/LifecycleDb.lean: awaits)
+
+
+def db_body(c):
+    """the one event of the command's own code in a database-fault case (None if the case has more than that)"""
+    c = norm(c)
+    evs = [c[k] for k in SCRIPT_ORDER if k not in ("f_dumpcap",) and c[k] != "ok"]
+    if len(evs) > 1 or c["f_dumpcap"] != "started" or not world_benign(c) or not c["db"] or c.get("dbclose"):
+        return None
+    if evs and not any(c[p] == evs[0] for p in POINTS):
+        return None
+    return evs[0] if evs else "ok"
+
+
+def db_line(op, c):
+    f = c["dbfault"]
+    return " ".join([op, c["kind"], f["call"], str(f["idx"]), f["mode"], db_body(c)])
+
+
+def db_projection(c, fin, o):
+    """the observation of a run in the syntax of the driver's `dbrun`"""
+    f = split_final(fin)
+    row = strip_times(f)["db"]
+    finished = f["logclosed"] == "1" and f["lock"] == "1" and (not c["art"] or f["meta"] != "none")
+    return (f"exit={f['exit']} row={row} closed={f['dbclosed']} finished={int(finished)} "
+            f"fired={int(bool(o.get('dbfault_fired')))}")
+
+
 def complexity(c):
     c = norm(c)
     w = c["world"]
-    return (sum(1 for k in SCRIPT_ORDER if c[k] not in ("ok", "started")) + (0 if world_benign(c) else 1) + len(w["runs"]),
+    return (sum(1 for k in SCRIPT_ORDER if c[k] not in ("ok", "started")) + (0 if world_benign(c) else 1) + len(w["runs"])
+            + (1 if c.get("dbfault") else 0),
             sum(1 for r in RES + FLAGS if c[r]), KINDS.index(c["kind"]), describe(c))
 
 
@@ -411,6 +446,26 @@ def build_cases(ctx):
                     c["dbclose"] = f
                     cases.append(("db-close-fault", c))
     ctx.exhaustive_parts.append("db close faults: 3 kinds x 3 resource combinations with a database x 5 scripts x {disconnect raises, Ctrl-C at disconnect}")
+    # 1c. a fault at one await INSIDE a database call: every awaited statement of connect / insert_run_meta / complete_run_meta /
+    #     disconnect (and one index past the last: never reached) x {OperationalError, Ctrl-C by SIGINT / Task.cancel} x what the
+    #     command itself ends with
+    bodies = ["ok", "exit:3", "conn", "other", "kbd", "cancel"] if full else ["ok", "exit:3", rng.choice(["conn", "other", "kbd", "cancel", "uds"])]
+    for kind in KINDS:
+        for call, n in DB_CALLS.items():
+            for i in range(n + 1):
+                for mode in ("raise", "cancel"):
+                    for j, b in enumerate([None] + bodies):   # (None: the smallest run there is - only the database switched on)
+                        res = "0010" if b is None else "0110" if b == "ok" else "1111"
+                        c = mk(kind, res, **({} if b in (None, "ok") else {POINTS[(i + j) % len(POINTS)]: b}))
+                        c["dbfault"] = {"call": call, "idx": i, "mode": mode}
+                        c = pick_how(rng, c)
+                        if mode == "cancel" and b is not None:
+                            c.setdefault("how", {}).setdefault("cancel", rng.choice(HOW["cancel"]))
+                        cases.append(("db-statement-fault", c))
+    ctx.exhaustive_parts.append("a fault at every awaited sqlite statement (execute / executescript / commit) of DBHandler.connect (5), "
+                                "insert_run_meta (2), complete_run_meta (2), disconnect (1) and one past the last x {the statement fails "
+                                "with OperationalError, Ctrl-C (SIGINT / Task.cancel) while it is awaited} x 3 kinds x "
+                                f"{len(bodies)} endings of the command's own code")
     # 2. every concrete exception class / way of cancelling / non-int exit code, everything switched on
     for kind in KINDS:
         for p in (POINTS if full else ["main"]):
@@ -610,11 +665,27 @@ def evaluate(ctx, runner, cases):
     spec = ctx.lean([" ".join(["spec", world_token(cases[i]), cases[i]["kind"], cfg_bits(cases[i])] + script_words(cases[i])
                                + ["|", fins[i][0]]) for i in idx])
     spec_by = dict(zip(idx, spec))
+    # a fault at an await inside a database call: Model/LifecycleDb.lean is the model and carries the demands
+    dbi = [i for i in idx if cases[i].get("dbfault")]
+    dbmodel = dict(zip(dbi, ctx.lean([db_line("dbrun", cases[i]) for i in dbi])))
+    dbproj = {i: db_projection(cases[i], fins[i][0], obs[i]) for i in dbi}
+    dbspec = dict(zip(dbi, ctx.lean([db_line("dbspec", cases[i]) + " | " + dbproj[i] for i in dbi])))
     out = []
     for i, (c, o) in enumerate(zip(cases, obs)):
         fin, direct, _t = fins[i]
         if fin is None:
             out.append((None, model[i], [], direct, [] if o.get("skipped") else ["harness-error"], o))
+            continue
+        if i in dbmodel:
+            tag = "[" + fault_name(c["dbfault"]) + "]"
+            sv = dbspec[i]
+            clauses = [] if sv == "ok" else ["unparseable-observation"] if sv == "bad-op" else [x + tag for x in sv.split(",")]
+            f = split_final(fin)
+            if c["art"] and f["meta"] != "none" and f["exit"].startswith("ret:") and f["meta"].split(":")[0] != f["exit"][4:]:
+                clauses.append("meta-exit-code" + tag)
+            pm, pi = split_final(dbmodel[i]), split_final(dbproj[i])
+            diff = [k + tag for k in pm if pm[k] != pi.get(k)]
+            out.append((fin, dbmodel[i], clauses, [d + tag for d in direct], diff, o))
             continue
         sv = spec_by[i]
         clauses = [] if sv == "ok" else sv.split(",")
@@ -728,6 +799,8 @@ def run(ctx):
                 groups.setdefault(("direct", dn), []).append(i)
             if diff and not clauses and not direct:
                 groups.setdefault(("tie", "+".join(sorted(set(x.split(":")[0] for x in diff)))), []).append(i)
+            if c.get("dbfault"):
+                ctx.kind("dbfault:" + fault_name(c["dbfault"]).rsplit(".", 1)[0], "dbfault-mode:" + c["dbfault"]["mode"])
         ctx.traces_validated += len(cases)
         # a shipped AsyncScript end to end (no model: the clauses are evaluated directly)
         co = concrete.get(120)[0]
@@ -761,16 +834,20 @@ def run(ctx):
                     name.startswith("exit-code[") and "exit-code" in r[2] and exit_detail(r[0]) == name)
             elif gk == "direct":
                 pred = lambda r, name=name: name in r[3]  # noqa: E731
+            elif "[" in name:   # a database-fault case: the same fields at the same fault point
+                pred = lambda r, name=name: bool(r[4]) and not r[2] and not r[3] and "+".join(sorted(set(r[4]))) == name  # noqa: E731
             else:
                 pred = lambda r, name=name: bool(r[4]) and not r[2] and not r[3]  # noqa: E731
-            small = shrink(ctx, runner, start, pred)
+            # (database-fault cases: the set contains the smallest run for every fault point, so the smallest of the group is it)
+            small = start if start.get("dbfault") else shrink(ctx, runner, start, pred)
             r = evaluate(ctx, runner, [small])[0]
             fin, mod, clauses, direct, diff, o = r
             key = f"{gk}:{name}@{describe(small)}"
             # which of the repaired behaviours of the pinned tree, switched on in the model, reproduces this run?
             alts = ctx.lean([" ".join(["run", "".join(q), world_token(small), small["kind"], cfg_bits(small)] + script_words(small))
                              for q in itertools.product("01", repeat=NQ)])
-            match = [q for q, a in zip(itertools.product("01", repeat=NQ), alts) if fin is not None and not tie_diff(a, fin)]
+            match = [q for q, a in zip(itertools.product("01", repeat=NQ), alts)
+                     if fin is not None and not small.get("dbfault") and not tie_diff(a, fin)]
             like = ""
             if match and gk != "tie":
                 q = min(match, key=lambda q: q.count("1"))
